@@ -14,7 +14,7 @@ pub const DEF: PropDef = PropDef {
     run,
     replay,
     level: "exploration",
-    rule: "(1) the complete product of valid components: 38 patterns x every ordered duplicate-free modifier sequence of length <= 2 (thorough: <= 3) over {psk0..psk9, fallback} x {25519, 448, P256} x 3 ciphers x 4 hashes, enumerated exhaustively; (2) EVERY single-edit mutation (delete, duplicate, case flip, replace by / insert each character of an alphabet of name characters plus '_' '+' space NUL and non-ASCII) at every position of a sample of valid names; (2a) token-level edits of valid names (tokens '_', '+', 'psk', digit runs, letter runs: each duplicated, deleted, swapped with its neighbour, replaced by / preceded by every token of a 34-word vocabulary); (2b) duplicate-free modifier lists of EVERY length 1..=257 (valid names from ~30 to ~1700 bytes, crossing 255/256/512/1024) and the same lists with one duplicate / out-of-range index / empty element, every ordered pair over psk0..psk257+fallback, two random edits; (3) random strings from a grammar-aware strategy and arbitrary Unicode; the hfs build (thorough) adds the dh+kem field and the hfs<=>kem rule. Oracle: an independent recogniser written from the statement (exactly 5 '_'-separated fields, 'Noise', longest-prefix pattern, '+'-separated non-empty duplicate-free modifiers fallback | psk<decimal u8> (| hfs), documented primitive names): parse is Ok iff the recogniser accepts; on Ok pattern, modifier list in order, dh, cipher, hash, base equal the recogniser's components and `name` is the input verbatim; on rejection the error is Error::Pattern(_). Decimal forms the statement does not settle (leading zeros, e.g. psk01) are counted and not judged. Non-trivial = a valid name with at least one modifier, or an invalid string within one edit of a valid name; distinct by string",
+    rule: "(1) the complete product of valid components: 38 patterns x every ordered duplicate-free modifier sequence of length <= 2 (thorough: <= 3) over {psk0..psk9, fallback} x {25519, 448, P256} x 3 ciphers x 4 hashes, enumerated exhaustively; (2) EVERY single-edit mutation (delete, duplicate, case flip, replace by / insert each character of an alphabet of name characters plus '_' '+' space NUL and non-ASCII) at every position of a sample of valid names; (2a) token-level edits of valid names (tokens '_', '+', 'psk', digit runs, letter runs: each duplicated, deleted, swapped with its neighbour, replaced by / preceded by every token of a 34-word vocabulary); (2a') every Unicode code point up to U+FFFF that is alphanumeric / numeric / white space (and a stride of the others; thorough: all) placed inside a psk index, a pattern name and primitive names; (2b) duplicate-free modifier lists of EVERY length 1..=257 (valid names from ~30 to ~1700 bytes, crossing 255/256/512/1024) and the same lists with one duplicate / out-of-range index / empty element, every ordered pair over psk0..psk257+fallback, two random edits; (3) random strings from a grammar-aware strategy and arbitrary Unicode; the hfs build (thorough) adds the dh+kem field and the hfs<=>kem rule. Oracle: an independent recogniser written from the statement (exactly 5 '_'-separated fields, 'Noise', longest-prefix pattern, '+'-separated non-empty duplicate-free modifiers fallback | psk<decimal u8> (| hfs), documented primitive names): parse is Ok iff the recogniser accepts; on Ok pattern, modifier list in order, dh, cipher, hash, base equal the recogniser's components and `name` is the input verbatim; on rejection the error is Error::Pattern(_). Decimal forms the statement does not settle (leading zeros, e.g. psk01) are counted and not judged. Non-trivial = a valid name with at least one modifier, or an invalid string within one edit of a valid name; distinct by string",
     technique: "differential testing of the parser against a reference recogniser: exhaustive product enumeration + exhaustive single-edit mutation + proptest strings (+ libFuzzer target name_parse in the thorough tier)",
     assumptions: &["psk indices with leading zeros (psk01) and a leading '+' sign are outside what the statement settles; they are skipped"],
     panic_is_violation: false,
@@ -467,6 +467,43 @@ pub fn run(ctx: &Ctx) {
             }
         }
         ctx.run_list("token_edits", &list, true, oracle);
+    }
+    // every code point up to U+FFFF (quick: those that are alphanumeric / numeric by Unicode's
+    // definition, i.e. what `char::is_numeric`, `is_alphanumeric`, `to_digit`-style helpers could
+    // mistake for digits or letters, plus every 7th other) inserted into / substituted in a psk
+    // index, the pattern name and a primitive name
+    {
+        let mut list: Vec<Case> = Vec::new();
+        for cp in 0x80u32..=0xFFFF {
+            let Some(ch) = char::from_u32(cp) else { continue };
+            if !(ch.is_alphanumeric() || ch.is_numeric() || ch.is_whitespace() || cp % 7 == 0 || ctx.tier == crate::engine::Tier::Thorough) {
+                continue;
+            }
+            let num = ch.is_numeric();
+            let pat = ["XX", "NK1", "N"][cp as usize % 3];
+            list.push(Case { s: format!("Noise_{pat}psk{ch}_25519_ChaChaPoly_BLAKE2s"), origin: 1 });
+            if num || cp % 5 == 0 {
+                list.push(Case { s: format!("Noise_{pat}psk1{ch}_25519_ChaChaPoly_BLAKE2s"), origin: 1 });
+                list.push(Case { s: format!("Noise_{pat}psk{ch}1_25519_AESGCM_SHA256"), origin: 1 });
+                list.push(Case { s: format!("Noise_{pat}psk0+psk{ch}_25519_AESGCM_SHA256"), origin: 1 });
+                list.push(Case { s: format!("Noise_{pat}_2551{ch}_AESGCM_SHA256"), origin: 1 });
+                list.push(Case { s: format!("Noise_{pat}_25519_AESGCM_SHA{ch}56"), origin: 1 });
+            }
+            if ch.is_alphabetic() && cp % 3 == 0 {
+                list.push(Case { s: format!("Noise_{ch}{pat}_25519_ChaChaPoly_SHA512"), origin: 1 });
+                list.push(Case { s: format!("Noise_X{ch}_25519_ChaChaPoly_SHA512"), origin: 1 });
+                list.push(Case { s: format!("Noise_{pat}_25519_ChaCha{ch}Poly_SHA512"), origin: 1 });
+                list.push(Case { s: format!("Noise_{pat}{ch}sk0_25519_ChaChaPoly_SHA512"), origin: 1 });
+            }
+        }
+        // a few beyond the BMP (mathematical digits, other scripts' digits)
+        for cp in (0x1D7CEu32..=0x1D7FF).chain(0x104A0..=0x104A9).chain(0x1F100..=0x1F10C) {
+            if let Some(ch) = char::from_u32(cp) {
+                list.push(Case { s: format!("Noise_XXpsk{ch}_25519_ChaChaPoly_BLAKE2s"), origin: 1 });
+                list.push(Case { s: format!("Noise_XXpsk1{ch}_25519_ChaChaPoly_BLAKE2s"), origin: 1 });
+            }
+        }
+        ctx.run_list("unicode_code_points", &list, false, oracle);
     }
     // every single edit of a sample of valid names
     let n_names = ctx.tier.pick(600usize, 3000);
